@@ -152,6 +152,17 @@ def body(ctx):
         if s < n:
             if got is None or site not in sb[got]:
                 ctx.finding("search/wrong_batch", "search does not return the batch containing the site", {"n": n, "k": k, "pos": s, "got": got})
+            else:
+                # batch i of a SiteBatch holds the sites at the positions get_batch(nsites, nbatch, i) of the list AS GIVEN
+                # (contiguous, ordered): sizes q+1 for the first r batches, q for the others, q, r = divmod(n, k)
+                q, r = divmod(n, k)
+                starts = [i * q + min(i, r) for i in range(k + 1)]
+                want = next(i for i in range(k) if starts[i] <= s < starts[i + 1])
+                members = [int(x) for x in sb[got]]
+                if got != want or members != [ids[j] for j in range(starts[got], starts[got + 1])]:
+                    ctx.finding("search/not_batch_of_position", "the batch returned for a site is not the batch of its position in the list as given "
+                                "(batches are contiguous, ordered slices of the site list)",
+                                {"n": n, "k": k, "pos": s, "got": got, "expected": want, "ids": ids[:12], "batch": members[:12]})
         elif got is not None:
             ctx.finding("search/phantom", "search finds a site that is not in the list", {"n": n, "k": k})
 
